@@ -831,6 +831,9 @@ class Executor:
                 out.append(('trace', None, None))
             else:
                 objs, f = m.rsplit('.', 1)
+                if objs in self.table.classes and self.specs.class_attr_type(objs, f) is not None:
+                    out.append(('field', self.class_obj(objs), f'{objs}.{f}'))      # class attribute
+                    continue
                 v = self.specs.eval_value(self, objs, st, fr)
                 out.append(('field', v.t, f))
         return out
@@ -853,6 +856,8 @@ class Executor:
                 if not any(key.startswith('F:') and _fkey_name(key) == f for key in h.maps):
                     # field not touched yet: force creation through its declared type
                     ty = self.specs.any_field_type(f)
+                    if ty is None and '.' in f:
+                        ty = self.specs.class_attr_type(*f.split('.', 1))
                     if ty is None:
                         raise Unsupported(f'modifies names unknown field {f}')
                     for s, so in leaves(ty):
